@@ -187,12 +187,17 @@ def run(tier, seed, drv):
         devs = [d["name"] for d in S.devices(scn)]
         for target in devs:
             for n in range(0, 3 if tier == "quick" else 4):
-                for hook in ("device", "adapter"):
+                # hooks: the device's update, an adapter's after_update, and - for every other target - what the SHIPPED EPICS adapter
+                # calls from its after_update: the getter linked to a record, the record's setter
+                for hook in ("device", "adapter") + (("epics-getter", "epics-set") if (devs.index(target) + n) % 2 == 0 and n < 2 else ()):
                     for b in ("sync", "held"):
                         s2 = copy.deepcopy(scn)
                         for d in S.devices(s2):
                             if d["name"] == target:
-                                d["beh"]["fail_at" if hook == "device" else "adapter_fail_at"] = n
+                                if hook.startswith("epics"):
+                                    d["beh"].update(epics=True, epics_fail_at=n, epics_fail_where=hook.split("-")[1])
+                                else:
+                                    d["beh"]["fail_at" if hook == "device" else "adapter_fail_at"] = n
                         sd = rng.randrange(1 << 30)
                         run_ = run_with_simulation(s2, b, sd)
                         case = {"scenario": s2, "bus": b, "held_seed": sd, "target": target, "n": n, "hook": hook}
@@ -202,13 +207,19 @@ def run(tier, seed, drv):
                         res.count("initial-tick" if n == 0 else "later")
                         res.count("hook=" + hook)
                         if not failed:
-                            res.count("failure-point-not-reached")
+                            raised = [e for e in run_["trace"].of("probe-raised") if e["comp"] == target]
+                            if raised:
+                                res.violate(V("failure-not-reported", f"the {raised[0]['hook']} hook of {target} raised at its update #{raised[0]['idx']} and no ComponentException was ever produced "
+                                              f"(the run {'returned' if run_['result'][0] == 'ok' and run_['result'][1] else 'did not return'})", site="exception-path", hook=hook,
+                                              depth=S.depth_map(scn).get(target)), case)
+                            else:
+                                res.count("failure-point-not-reached")
                             continue
                         rep = drv.eval([{"op": "failstop", "tree": tree(s2["components"]), "target": target, "error": "probe"}])[0]
                         pyrep = model_report(s2["components"], target)
                         if rep is None or sorted(pyrep["stopped"]) != rep["stopped"] or pyrep["errored"] != rep["errored"]:
                             res.diverge(f"fail-stop model driver/python rendering differ: {rep} vs {pyrep}", case)
-                        analyse(s2, run_, target, n, hook, res, case, rep=dict(pyrep, source=(rep or {}).get("source")))
+                        analyse(s2, run_, target, n, "adapter" if hook.startswith("epics") else hook, res, case, rep=dict(pyrep, source=(rep or {}).get("source")))
     # TWO components failing in the same tick (their n-th updates): the scheduler receives two reports for one tick;
     # the run must still return, with the error flag set, reporting one of the two, and never tick again
     import itertools
